@@ -3,6 +3,7 @@
   D1 split/merge conserve the tiling (symbolic straight-line evaluation)
   D2 write and exec pointers use the same offset; split only when larger, by aligned size
   D3 the copy into the chunk is bounded by the size that was allocated
+  D4 the free-chunk search visits every region and every chunk (necessary for reuse of freed memory)
 Non-overlap / reuse over histories, coalescing completeness, region growth: NOT decided.
 """
 from facts import Locals, AnalysisBroken, access_path, strip_casts, unparse
@@ -211,6 +212,35 @@ def run(ctx):
         fits = ("(%s <= %s->size)" % (GS, X), True) in conds or ("(%s->size >= %s)" % (X, GS), True) in conds or ("(%s->size < %s)" % (X, GS), False) in conds
         rep.check(unused and fits, "D2-SAME-OFFSET", where(gf), "return-chunk", "only an unused chunk with size >= request is handed out",
                   "a chunk is returned without establishing !used and size <= chunk->size (facts %s)" % conds, line=r.line)
+
+    # ---- D4: reuse -- the free-chunk search looks at every region and every chunk ---------------
+    # (necessary for "freed memory is reused": a region or chunk the scan skips is never handed out again, and the
+    #  allocator maps a fresh region instead)
+    from loops import counted
+    scans = [lp for lp in gf.walk() if lp.k == "ForStmt" and any(x.k == "ArraySubscriptExpr" and access_path(x.c[0]) == "orc_code_regions" for x in lp.c[3].walk())]
+    if len(scans) != 1:
+        raise AnalysisBroken("orc_code_region_get_free_chunk: region scan loop not found (%d candidates)" % len(scans))
+    cl = counted(scans[0])
+    full = cl is not None and ((cl["dir"] == "asc" and cl["first"] == (None, 0) and cl["last"] == ("orc_code_n_regions", -1)) or
+                               (cl["dir"] == "desc" and cl["first"] == ("orc_code_n_regions", -1) and cl["last"] == (None, 0)))
+    rep.check(full, "D4-SCAN-ALL", where(gf), "region-scan", "the search visits regions 0 .. orc_code_n_regions-1",
+              "the free-chunk search no longer visits every region (%s): memory freed in a skipped region is never reused and a new region is mapped instead" % cl, line=scans[0].line)
+    # chunk walk: from region->chunks along ->next to NULL, inside the region scan
+    walks = [lp for lp in scans[0].c[3].walk() if lp.k == "ForStmt"]
+    okw = False
+    for lp in walks:
+        init, cond, inc = lp.c[0], strip_casts(lp.c[1]), strip_casts(lp.c[2])
+        it = [n for n in (init.walk() if init is not None else []) if n.k == "BinaryOperator" and n.op == "="]
+        if not it or cond is None or inc is None:
+            continue
+        v = access_path(it[0].c[0])
+        start = strip_casts(it[0].c[1])
+        from flow import atom as _atom
+        cn, cpol = _atom(cond, True)
+        step = inc.k == "BinaryOperator" and inc.op == "=" and access_path(inc.c[0]) == v and access_path(inc.c[1]) == "%s->next" % v
+        okw = okw or (start is not None and start.k == "MemberExpr" and start.name == "chunks" and cn is not None and access_path(cn) == v and cpol is True and step)
+    rep.check(okw, "D4-SCAN-ALL", where(gf), "chunk-walk", "every chunk of a region is examined (from ->chunks along ->next to NULL)",
+              "the chunk walk of the free-chunk search no longer runs from region->chunks along ->next to the end of the list", line=scans[0].line)
 
     # ---- D3 ------------------------------------------------------------------
     cp = db.func("orc_compiler_compile_program", "orccompiler")
